@@ -364,6 +364,20 @@ section SortSec
 open Dask.SortValues
 variable {β : Type}
 
+/-- **set_partitions_pre, every mode** (ascending / descending, NaN first / last): the partition number is a valid
+    one and it is MONOTONE in the sort order — a key that may stand before another one never gets a later partition.
+    (This, not the exact interval, is what global order needs; `set_partitions_pre_spec` gives the interval.) -/
+theorem set_partitions_pre_monotone (divs : List Nat) (asc naLast : Bool) (a b : Option Nat) (h2 : 2 ≤ divs.length) :
+    setPartitionsPre divs a asc naLast < divs.length - 1 ∧
+    (keyLe asc naLast a b = true → setPartitionsPre divs a asc naLast ≤ setPartitionsPre divs b asc naLast) :=
+  ⟨spp_lt divs a asc naLast h2, spp_mono divs asc naLast a b h2⟩
+
+/-- NaN keys go to the last partition with `na_position="last"` and to the first one with `"first"`, whatever the
+    direction (6a34ec2 made `SortValues._lower` pass `na_position` on) -/
+theorem set_partitions_pre_nan (divs : List Nat) (asc : Bool) :
+    setPartitionsPre divs none asc true = divs.length - 2 ∧ setPartitionsPre divs none asc false = 0 := by
+  simp [setPartitionsPre]
+
 /-- **sort_values is globally ordered** — for every frame and partitioning, every division vector with at least two
     entries (sorted or not: the routing is monotone either way; the model's `bisectRight` is `searchsorted` on
     sorted divisions, which is what `SortValues._lower` passes), ascending or descending, `na_position` first or
@@ -711,6 +725,10 @@ example : dedupShuffleWith (diskShuffle [1, 0]) true (fun r : Nat × Nat => r.1)
 -- presorted set_index: divisions mins + [maxes[-1]]
 example : presortedDivisions ((calcPresorted true [[some 1, some 2], [some 3, some 3], [some 4, some 6]]).2.1.filterMap id)
     ((calcPresorted true [[some 1, some 2], [some 3, some 3], [some 4, some 6]]).2.2.filterMap id) = [1, 3, 4, 6] := by decide
+example : Dask.Divs.Truthful (fun r : Nat × Nat => r.1) [1, 3, 4, 6]
+    (sortValuesPresorted (sortPart (fun r : Nat × Nat => some r.1) true true) [[(2, 0), (1, 1)], [(3, 2), (3, 3)], [(6, 4), (4, 5)]]) :=
+  set_index_presorted_truthful (fun r : Nat × Nat => r.1) _ [[(2, 0), (1, 1)], [(3, 2), (3, 3)], [(6, 4), (4, 5)]]
+    (by decide) (by decide) (fun l r hr => (sortPart_perm _ true true l).mem_iff.mp hr)
 -- the refutation witness of `drop_duplicates_arrival_order_refuted`, evaluated: pieces collected in reverse order
 example : dedupShuffleWith (fun ps n => orderedShuffle ps.reverse n) true (fun r : Nat × Nat => r.1) id 1 [[(7, 0)], [(7, 1)]] =
     [[(7, 1)]] ∧ dedup true (fun r : Nat × Nat => r.1) [(7, 0), (7, 1)] = [(7, 0)] := by decide
